@@ -4,7 +4,8 @@
 (*   commit i's parents: at most 2 of 1..i-1 (as a set, or in both orders  *)
 (*   when Ordered), plus - when Octopus - the shapes whose last commit has *)
 (*   the three parents NC-3, NC-2, NC-1,                                   *)
-(* times every assignment of {1,2,3} (equal, reversed, skewed clocks),     *)
+(* times every assignment of {1,2,3} (equal, reversed, skewed clocks; or   *)
+(* just three clocks when AllClocks is FALSE),                             *)
 (* and print one scenario line ("SCN") per history carrying what the       *)
 (* specification says about it:                                            *)
 (*   p, t   parents and times (clk: the clock class, a label only),        *)
@@ -17,7 +18,8 @@
 (*          report "not found"; CommonAnc only names the mismatch kind),   *)
 (*   dev    the ordered tuples of distinct commits on which the            *)
 (*          transcription SeekAsCoded leaves the contract, with its answer *)
-(*          (model-level counterexamples = named scenarios to replay).     *)
+(*          (model-level counterexamples = named scenarios to replay);     *)
+(*          wc tells whether it was computed at all.                       *)
 (* A shape is an initial state; its time assignments are its successors,   *)
 (* so TLC's workers share the work and each scenario is printed once.      *)
 (* The invariant is use (A): the queue design meets the contract.          *)
@@ -28,12 +30,15 @@ CONSTANTS NC,        \* number of commits
           K,         \* largest set of merge inputs exported
           Ordered,   \* TRUE: two parents in both orders
           Octopus,   \* TRUE: add the 3-parent shapes
-          WithCoded  \* TRUE: export dev
+          WithCoded, \* TRUE: export dev
+          AllClocks  \* TRUE: every assignment of times {1,2,3}; FALSE: three clocks
+                     \* only - all equal, increasing and decreasing with creation
 
 VARIABLE g
 vars == <<g>>
 
-Times == 1..3
+Clocks == IF AllClocks THEN [1..NC -> 1..3]
+          ELSE {[i \in 1..NC |-> 1], [i \in 1..NC |-> i], [i \in 1..NC |-> NC + 1 - i]}
 
 ParChoices(i) ==
        {<<>>}
@@ -61,6 +66,7 @@ Export(h) ==
       coded == [tp \in DistinctTuples |-> SeekAsCoded(h, tp)]
   IN [p   |-> h.p, t |-> h.t, clk |-> ClockClass(h), anc |-> A,
       b   |-> {<<S, AllowedBases(A, S), CommonAnc(A, S)>> : S \in Sets},
+      wc  |-> WithCoded,
       dev |-> IF WithCoded
               THEN {<<tp, coded[tp]>> : tp \in {x \in DistinctTuples : ~SeekOK(A, x, coded[x])}}
               ELSE {}]
@@ -68,7 +74,7 @@ Export(h) ==
 Init == g \in {[p |-> s, t |-> <<>>] : s \in Shapes}
 
 Next == /\ g.t = <<>>
-        /\ \E t \in [1..NC -> Times] :
+        /\ \E t \in Clocks :
              /\ g' = [g EXCEPT !.t = t]
              /\ PrintT(<<"SCN", ToJson(Export(g'))>>)
 
